@@ -55,7 +55,7 @@ UNIT = dict(
                        '__CPROVER_loop_invariant(inEscape == g_acc.esc && !g_acc.err)\n'
                        '__CPROVER_loop_invariant(g_k < g_acc.n_out ==> self->m_data.d[g_n0 + g_k] == g_acc.out_k)\n'
                        '__CPROVER_decreases(str->n + 2 - i)'},
-             anchors=[(r'if \(inEscape\) \{', 'before', 'g_acc_step(value);')]),
+             anchors=[(r'if \(result != RESULT_OK\) \{\s*return result;\s*\}', 'after', 'g_acc_step(value);')]),
         dict(file=SYM_CPP, name='SymbolString::calcCrc', cname='SymbolString_calcCrc', self='SymbolString',
              cfg=dict(index=[(r'^m_data$', 'vsym_get')]),
              loops={0: '__CPROVER_assigns(i, crc, g_crc, g_n)\n'
